@@ -54,6 +54,7 @@ CONSTANTS
   K_EDITS = {k}
   MAXLEN = 40
   SEEDSEL = {seeds}
+  TSEL = {tsel}
   GEN = {gen}
 INVARIANTS {invs}
 """
@@ -65,8 +66,12 @@ GROUP = {"SockV4": "Sock", "SockV6": "Sock", "SockSvc": "Sock", "SockIp": "Sock"
          "TxtPayload": "Txt", "TxtRecord": "Txt"}
 
 
+TYPES_ENV = {"VERIF_TYPES": ",".join(ALL_TYPES)}   # the hop-predicate types of the same binary belong to C16
+
+
 def cfg(c, name, **kw):
     kw.setdefault("invs", "NoPanic Sound Complete Emit")
+    kw.setdefault("tsel", seedset(ALL_TYPES))
     p = os.path.join(c.work, name)
     open(p, "w").write(MC_TMPL.format(**kw))
     return p
@@ -83,7 +88,7 @@ def validate_trace(c, trace, label):
     n = len(lines) - 1
     if n <= 0:
         return 0, [], []
-    r = c.tlc(SD, "Trace_AddrText", mode="mc", env={"TRACE": trace}, timeout=3000, coverage=False, xmx="8g")
+    r = c.tlc(SD, "Trace_AddrText", mode="mc", env={"TRACE": trace}, timeout=9000, coverage=False, xmx="8g")
     chunks = (n + 127) // 128
     if not r.ok or r.postcondition_failed or r.distinct != 1 + chunks + n:
         c.fail_tool("trace validation of %s did not visit every line (%d distinct states, %d lines): %s" % (label, r.distinct, n, r.out_path))
@@ -122,7 +127,7 @@ def replay_one(c, bins):
     # judge the single string again through the trace route
     tr = os.path.join(c.work, "one.ndjson")
     for i, b in enumerate(bins):
-        rc, so = c.sh([b, "record", tr + str(i), os.path.join(c.work, "one%d.json" % i)], env={"VERIF_ONLY": text})
+        rc, so = c.sh([b, "record", tr + str(i), os.path.join(c.work, "one%d.json" % i)], env=dict(TYPES_ENV, VERIF_ONLY=text))
         if rc != 0:
             c.fail_tool("record (single string) failed: %s" % so[-300:])
         n, pvs, drifts = validate_trace(c, tr + str(i), "replay")
@@ -140,7 +145,7 @@ def binding_selftest(c, binp):
     If the code under test behaves so unexpectedly that no suitable line exists, the self-test is
     skipped with a DRIFT line (never a tool error)."""
     tr = os.path.join(c.work, "self.ndjson")
-    rc, so = c.sh([binp, "record", tr, os.path.join(c.work, "self.json")], env={"VERIF_EDITS": 300, "VERIF_SHORTS": 0})
+    rc, so = c.sh([binp, "record", tr, os.path.join(c.work, "self.json")], env=dict(TYPES_ENV, VERIF_EDITS=200, VERIF_SHORTS=0))
     if rc != 0:
         c.fail_tool("binding self-test: record failed %s" % so[-300:])
     lines = read_ndjson(tr)
@@ -156,7 +161,7 @@ def binding_selftest(c, binp):
             x["o"], x["v"] = "acc", fake
     # adapter mutant: recorded into a second file, both judged in one TLC run
     p3 = os.path.join(c.work, "self_mutant.ndjson")
-    rc, so = c.sh([binp, "record", p3, os.path.join(c.work, "self_mutant.json")], env={"VERIF_EDITS": 1500, "VERIF_SHORTS": 0, "VERIF_MUTANT": "trim"})
+    rc, so = c.sh([binp, "record", p3, os.path.join(c.work, "self_mutant.json")], env=dict(TYPES_ENV, VERIF_EDITS=800, VERIF_SHORTS=0, VERIF_MUTANT="trim"))
     if rc != 0:
         c.fail_tool("binding self-test: record (mutant) failed %s" % so[-300:])
     p2 = os.path.join(c.work, "self_both.ndjson")
@@ -194,11 +199,11 @@ def run(c):
         gens = [dict(k=4, seeds=["empty"]), dict(k=1, seeds=["ids", "addr", "sock", "txt", "txtp"]),
                 dict(k=2, seeds=["ids", "addrsmall", "sockone", "txtsmall"])]
     else:
-        gens = [dict(k=3, seeds=["empty"]), dict(k=1, seeds=["ids", "addr", "sock", "txt", "txtp"])]
+        gens = [dict(k=3, seeds=["empty"]), dict(k=1, seeds=["idsq", "addrq", "sockq", "txt", "txtp"])]
     cases = {}
     for gi, g in enumerate(gens):
         r = c.tlc(SD, "MC_AddrText", cfg=cfg(c, "mc_%d.cfg" % gi, fixed="TRUE", fixtxt="TRUE", k=g["k"], seeds=seedset(g["seeds"]), gen="TRUE"),
-                  timeout=3000, coverage=False, xmx="10g")
+                  timeout=9000, coverage=False, xmx="10g")
         for inv in r.violated:
             c.violation("spec:%s" % inv, "design-level: the I-layer (transcription of the parsers) violates %s on MC_AddrText %s; see %s" % (inv, g, r.out_path), {"tlc_out": r.out_path})
         if not r.ok and not r.violated:
@@ -244,7 +249,7 @@ def run(c):
     for bi, b in enumerate(bins):
         outp = os.path.join(c.work, "replay_%d.json" % bi)
         tr = os.path.join(c.work, "replay_trace_%d.ndjson" % bi)
-        rc, so = c.sh([b, "replay", inp, outp, tr], timeout=3000)
+        rc, so = c.sh([b, "replay", inp, outp, tr], timeout=9000, env=TYPES_ENV)
         if rc != 0:
             c.fail_tool("replay harness failed rc=%s %s %s" % (rc, so[-300:], getattr(c, "last_stderr", "")[-300:]))
         res = json.load(open(outp))
@@ -263,8 +268,8 @@ def run(c):
     for bi, b in enumerate(bins):
         tr = os.path.join(c.work, "record_trace_%d.ndjson" % bi)
         outp = os.path.join(c.work, "record_%d.json" % bi)
-        budget = (120000 if bi == 0 else 60000) if thorough else (10000 if bi == 0 else 5000)
-        rc, so = c.sh([b, "record", tr, outp], timeout=3000, env={"VERIF_EDITS": budget})
+        budget = (120000 if bi == 0 else 60000) if thorough else (6000 if bi == 0 else 3000)
+        rc, so = c.sh([b, "record", tr, outp], timeout=9000, env=dict(TYPES_ENV, VERIF_EDITS=budget, VERIF_SHORTN=10000 if thorough else 400))
         if rc != 0:
             c.fail_tool("record harness failed rc=%s %s" % (rc, so[-300:]))
         res = json.load(open(outp))
